@@ -81,10 +81,11 @@ VALS_T = [-3, -2, -1, 0, 1, 2, 3, 5, 8]
 
 def bound(tier):
     return ("IF: 18 condition kinds x else on/off x 7 then x 4 else bodies x 4 placements; FOR: (16 literal bound pairs + 5 symbolic) x 8 "
-            "bodies x 3 placements x 3 nestings" + ("; bound pairs over {-3..3,5,8}^2" if tier == "thorough" else ""))
+            "bodies x 3 placements x 3 nestings" + ("; bound pairs over {-3..3,5,8}^2; 8 two-level placements" if tier == "thorough" else ""))
 
 
 def cases(tier, seed):
+    setup(tier, seed)
     for ck in COND:
         yield ("if", ck)
     for bk in FOR_BODIES:
@@ -98,18 +99,29 @@ def describe(case, res):
     return d
 
 
-def skeleton(inner, place, macro_defs):
-    """Wrap `inner` statements at a placement; returns the statement list after the prelude."""
-    body = [("org", N(ORG)), ("label", "pre"), ("data", "db", [N(0xA0)])]
+def wrap_once(inner, place, macro_defs, level):
     if place == "top":
-        body += inner
-    elif place == "block":
-        body.append(("block", [("data", "db", [N(0xA1)])] + inner))
-    elif place == "macro":
-        macro_defs.append(("macro", "wrap", [], inner))
-        body.append(("call", "wrap", []))
-    elif place == "for":
-        body.append(("for", "oo", N(0), N(2), inner))
+        return inner
+    if place == "block":
+        return [("block", [("data", "db", [N(0xA1 + level)])] + inner)]
+    if place == "macro":
+        name = "wrap" if level == 0 else f"wrap{level}"
+        macro_defs.append(("macro", name, [], inner))
+        return [("call", name, [])]
+    if place == "for":
+        return [("for", "oo" if level == 0 else f"oo{level}", N(0), N(2), inner)]
+    raise ValueError(place)
+
+
+def skeleton(inner, place, macro_defs):
+    """Wrap `inner` statements at a placement (a name, or 'outer/inner' for two nested placements)."""
+    body = [("org", N(ORG)), ("label", "pre"), ("data", "db", [N(0xA0)])]
+    wrapped = inner
+    for level, pl in enumerate(reversed(place.split("/"))):
+        wrapped = wrap_once(wrapped, pl, macro_defs, level)
+    body += wrapped
+    if False:
+        pass
     # scoped constructs AFTER the directive: a macro application with an argument and a block with its own label
     body += [("call", "nn", [("b", "+", S("kc"), N(0x30))]), ("block", [("label", "pblk"), ("data", "dw", [S("pblk")])]),
              ("label", "post"), ("data", "dw", [N(0xEEDD)]), ("data", "dl", [S("post")])]
@@ -120,11 +132,20 @@ def neg_safe(v):
     return N(v) if v >= 0 else ("b", "-", N(0), N(-v))
 
 
+_TWO_LEVEL = False
+NEST2 = ["block/macro", "macro/block", "macro/for", "for/macro", "block/for", "for/block", "macro/macro", "for/for"]
+
+
+def setup(tier, seed):
+    global _TWO_LEVEL
+    _TWO_LEVEL = tier == "thorough"
+
+
 def if_programs(ck):
     cexpr, cval, how = COND[ck]
     for has_else in (False, True):
         for tk, ek in itertools.product(THEN, ELSE if has_else else ["db"]):
-            for place in IF_PLACES:
+            for place in IF_PLACES + (NEST2 if _TWO_LEVEL else []):
                 then_b, else_b = THEN[tk], (ELSE[ek] if has_else else None)
                 if (tk == "label-after") != (has_else and ek == "label-after") and (has_else or tk == "label-after"):
                     if tk == "label-after" and has_else:
@@ -163,7 +184,7 @@ def for_programs(bk, tier):
                (N(1), N(3), 1, 3, "param", "param 1,3"), (N(0), S("kb"), 0, 3, "param", "param 0,kb"),
                (N(1), N(3), 1, 3, "param-twice", "param 1,3 then 0,1"), (N(2), N(2), 2, 2, "param-twice", "param 2,2 then 0,1")]
     for lo_e, hi_e, lo, hi, how, btag in bounds:
-        for place in FOR_PLACES:
+        for place in FOR_PLACES + (NEST2 if _TWO_LEVEL else []):
             variants = [("plain", lambda x: x), ("in-if", lambda x: [("if", S("kc"), x, None)]),
                         ("in-for", lambda x: [("for", "qq", N(0), N(2), x)])]
             for vname, wrapv in variants:
